@@ -28,6 +28,8 @@ def run(ctx):
                       "is an unanchored search for `$( ... )`; a splice by Regex::replace* whose pattern carries a start / "
                       "end anchor fails to match words the gate accepts (an earlier `$`, a later newline), replaces "
                       "nothing, and the loop runs the inner command for ever")
+    ctx.rule("R11-10", "the whole output is captured: the parent reads each capture pipe to end-of-file (read_to_string / "
+                       "read_to_end directly on the File made from the pipe's read end) - no take(), no bounded or single read")
     ctx.rule("R11-7", "the output is spliced into the word that held the substitution: the position recorded for a word is "
                       "not used after the token vector's length changed (E-EDITLIST)")
     for crate in ctx.crates:
@@ -35,6 +37,7 @@ def run(ctx):
         n_ = editlist.rule(ctx, crate, "R11-7", list(SITES))
         ctx.floor("R11-7", crate, "substitution passes with a token vector", n_, 2)
         once_rule(ctx, crate)
+        read_to_eof_rule(ctx, crate)
         scanners = taint.dollar_scanners(crate)
         nsites = 0
         for p in SITES:
@@ -352,3 +355,48 @@ def splice_width_rule(ctx, crate):
                    "and the rewrite loop never ends" % anchors)
             n += 1
     ctx.require(n >= 1, "R11-9", "R11-9|%s|anchor" % b.path, "no Regex::replace* splice found", b.path)
+
+
+def read_to_eof_rule(ctx, crate):
+    b = crate.fn("core::run_single_program")
+    if not ctx.require(b is not None, "R11-10", "R11-10|anchor", "core::run_single_program not found"):
+        return
+    # Files made from capture pipe read ends
+    files = []
+    for bb, t, c in b.calls():
+        if last_seg(c) == "from_raw_fd" and "File" in c:
+            a = b.expand_vars(strip_sites(b.call_args(bb)[0]))
+            if any(sub[0] == "var" and "capture" in str(sub[2]) for sub in mir.subexprs(a)) or \
+                    any(sub[0] == "param" and "capture" in str(sub[2]) for sub in mir.subexprs(a)):
+                files.append((bb, strip_sites(b.call_expr(bb))))
+    if not ctx.require(len(files) >= 2, "R11-10", "R11-10|%s|files" % b.path,
+                       "expected the two capture pipes to be wrapped in Files, found %d" % len(files), b.path):
+        return
+    LIMITING = {"take", "read", "read_exact", "read_buf", "bytes", "chain", "read_vectored", "lines", "read_line", "read_until"}
+    for k, (fbb, fexpr) in enumerate(files):
+        readers, limited = [], []
+        for bb, t, c in b.calls():
+            args = b.call_args(bb)
+            if not args:
+                continue
+            recv = b.expand_vars(strip_sites(args[0]))
+            derives = any(sub == fexpr for sub in mir.subexprs(recv)) or \
+                flow.backward(b, args[0], lambda z: z[0] == "call" and last_seg(z[1]) == "from_raw_fd" and
+                              strip_sites(z) == fexpr, through_containers=False) is not None
+            if not derives:
+                continue
+            ls = last_seg(c)
+            if ls in ("read_to_string", "read_to_end"):
+                inner = [last_seg(x[1]) for x in mir.subexprs(recv) if x[0] == "call"]
+                if set(inner) & LIMITING:
+                    limited.append((bb, ls + " on " + "/".join(sorted(set(inner) & LIMITING))))
+                else:
+                    readers.append(bb)
+            elif ls in LIMITING and ("Read" in c or "File" in c or "Take" in c or "io::" in c):
+                limited.append((bb, ls))
+        ok = bool(readers) and not limited
+        ctx.ob("R11-10", b.path, "capture pipe #%d is read to end-of-file" % k, ok,
+               key="R11-10|%s|read-to-eof#%d" % (b.path, k), where=b.loc((limited or [(fbb, "")])[0][0]), crate=crate.kind,
+               detail=None if ok else ("bounded read (%s): output beyond the bound is silently dropped (and a cut inside a "
+                                       "multi-byte character makes read_to_string fail, leaving an empty replacement)" %
+                                       ", ".join(x[1] for x in limited) if limited else "no read_to_string / read_to_end on it"))
